@@ -15,7 +15,7 @@ struct newdb_ghost {
   uint64_t setcur_number;
   unsigned long clock, t_create, t_append, t_sync, t_close, t_setcur, t_remove;
   /* the edit as exported into the record */
-  int x_has_cmp, x_has_log, x_has_next, x_has_seq, x_has_prev; const char *x_cmp_name; uint64_t x_log, x_next, x_seq;
+  int x_has_cmp, x_has_log, x_has_next, x_has_seq, x_has_prev; const char *x_cmp_name, *edit_cmp_name; uint64_t x_log, x_next, x_seq;
   unsigned edit_inits, edit_clears, buf_inits, buf_clears;
 } NG;
 
